@@ -96,7 +96,7 @@ class SliceInstruction(MichelsonInstruction, prim='SLICE'):
         length.assert_type_equal(NatType)
         s.assert_type_in(StringType, BytesType)
         start, stop = int(offset), int(offset) + int(length)
-        if 0 <= start <= stop <= len(s):
+        if start < len(s) and stop <= len(s):
             res = OptionType.from_some(s[start:stop])
         else:
             res = OptionType.none(type(s))
